@@ -3,6 +3,7 @@ package main
 import (
 	"fmt"
 	"sort"
+	"strings"
 
 	eval "github.com/onheap/eval"
 )
@@ -19,6 +20,7 @@ var evalCodeText = map[int]string{
 	7:  "TryEval result/effects differ from its tree-level meaning",
 	8:  "the implementation's program fails the static stack-bound validation",
 	9:  "registered operators invoked during Compile differ from the model's constant-folding log",
+	10: "event-mode layout: the structural compiler the C12 theorem is about differs from the transliterated event pass",
 	50: "outside the property's domain (non-boolean operand of and/or): not compared",
 }
 
@@ -251,7 +253,7 @@ func init() {
 		Rule: "random typed expression trees (all operator families and aliases, if, literals, lists, registered operators incl. zero-operand and failing ones, failing variables, wrong-typed operands, and/or with 0..127 operands) rendered to source, compiled with all optimisations disabled, evaluated under random bindings with a recording fetcher; Go's result/error and its ordered fetch/operator-call effects are compared with the reference semantics `sem` of the model (and the model's compile/run with Go's exported program); non-trivial = at least one effect or more than 3 nodes; distinct = distinct (source, config, binding)",
 		Assumptions: []string{"fetcher and registered operators are deterministic functions of their arguments (the harness's recording fetcher and test operators are)",
 			"errors are compared by class and identity of the user error, not by message text"},
-		Behav: []int{5, 2}, Fidelity: []int{3, 4, 8}, Ignore: []int{50, 1, 6, 7}, CodeText: evalCodeText,
+		Behav: []int{5, 2}, Fidelity: []int{3, 4, 8, 10}, Ignore: []int{50, 1, 6, 7}, CodeText: evalCodeText,
 		Gen: genC01,
 	})
 }
@@ -395,7 +397,7 @@ func init() {
 		ID:   "C03",
 		Rule: "random typed trees x all 16 optimisation subsets x cost maps x stateless declarations x bindings; Go's ordered VariableFetcher.Get calls and registered-operator calls (with arguments and results, incl. failing calls) are compared with the effect trace of the reference semantics of Go's own optimised tree (VerifParse), fast operators having the fetch-both-leaves meaning; non-trivial = at least one effect; distinct = distinct (source, config, binding)",
 		Assumptions: []string{"effects are observed through a recording VariableFetcher and recording registered operators"},
-		Behav: []int{5, 2}, Fidelity: []int{3, 4, 8}, Ignore: []int{50, 1, 6, 7}, CodeText: evalCodeText,
+		Behav: []int{5, 2}, Fidelity: []int{3, 4, 8, 10}, Ignore: []int{50, 1, 6, 7}, CodeText: evalCodeText,
 		Gen: func(c *RunCtx) []*Batch {
 			r := c.R
 			b := evalBatch("C03", "eval_effects")
@@ -439,6 +441,7 @@ func init() {
 						av = randAvail(r, bd)
 					}
 					addEval(c, b, &EvalSpec{Tree: t, RC: rc, Bind: bd, Avail: av, DoEval: true, DoTry: true, Lazy: true, Tags: []string{fmt.Sprintf("subset:%d", mask)}})
+					eventsOffAgree(c, t, rc, bd, av)
 				}
 			}
 			return []*Batch{b}
@@ -448,21 +451,21 @@ func init() {
 		ID:   "C04",
 		Rule: "random trees (incl. failing sub-expressions) x optimisation subsets x random available/unavailable splits x bindings, TryEval run with a truthful loading fetcher (Cached reports the split, Get would succeed for every variable) and compared with the tree-level meaning of TryEval `trysem` (outcome and fetch/call effects, so a read of an unavailable variable is visible); Eval on the full binding compared with `sem`; non-trivial = every case; distinct = distinct (source, config, binding, split)",
 		Assumptions: []string{"the fetcher reports availability truthfully"},
-		Behav:       []int{7, 5, 2}, Fidelity: []int{3, 6, 4, 8}, Ignore: []int{50, 1}, CodeText: evalCodeText,
+		Behav:       []int{7, 5, 2}, Fidelity: []int{3, 6, 4, 8, 10}, Ignore: []int{50, 1}, CodeText: evalCodeText,
 		Gen:         tryGen("C04", true),
 	})
 	register(&PropDef{
 		ID:   "C05",
 		Rule: "as C04 but without failing variables or wrong-typed operands (the property's domain: sub-expressions do not fail), DNE variables placed anywhere; TryEval compared with `trysem`, which the theorem equates with strong Kleene evaluation on non-failing expressions; event mode on for a sixth of the cases",
 		Assumptions: []string{"the fetcher reports availability truthfully"},
-		Behav:       []int{7, 2}, Fidelity: []int{3, 6, 8}, Ignore: []int{50, 1, 4, 5}, CodeText: evalCodeText,
+		Behav:       []int{7, 2}, Fidelity: []int{3, 6, 8, 10}, Ignore: []int{50, 1, 4, 5}, CodeText: evalCodeText,
 		Gen:         tryGen("C05", false),
 	})
 	register(&PropDef{
 		ID:   "C12",
-		Rule: "random trees x optimisation subsets x {ReportEvent, Debug} x {Eval, TryEval}: the OP_EXEC/LOOP events read from a buffered channel after the call returned (a retaining consumer) are compared with the model's observation stream (operator name, fast flag, arguments at call time, result or error; LOOP position, node and stack snapshot); results compared with the same program compiled without events; non-trivial = at least one OP_EXEC event; distinct = distinct (source, config, binding)",
+		Rule: "random trees x optimisation subsets x {ReportEvent, Debug} x {Eval, TryEval}: the OP_EXEC/LOOP events read from a buffered channel after the call returned (a retaining consumer) are compared with the model's observation stream (operator name, fast flag, arguments at call time, result or error; LOOP position, node and stack snapshot); Dump, Eval and TryEval results compared directly with the same source compiled without the event options; non-trivial = at least one OP_EXEC event; distinct = distinct (source, config, binding)",
 		Assumptions: []string{"events are consumed from a channel with enough capacity, after the evaluation returned (consumer timing: retained); synchronous consumers are exercised by C07's concurrent runs"},
-		Behav:       []int{5, 7, 2}, Fidelity: []int{3, 4, 6, 8}, Ignore: []int{50, 1}, CodeText: evalCodeText,
+		Behav:       []int{5, 7, 2}, Fidelity: []int{3, 4, 6, 8, 10}, Ignore: []int{50, 1}, CodeText: evalCodeText,
 		Gen: func(c *RunCtx) []*Batch {
 			r := c.R
 			b := evalBatch("C12", "events")
@@ -483,6 +486,70 @@ func init() {
 			return []*Batch{b}
 		},
 	})
+}
+
+// eventsOffAgree compiles the same source with and without the event options and compares the decompiled
+// program (Dump), Eval and TryEval directly.
+func eventsOffAgree(c *RunCtx, t *GT, rc *RunCfg, bd *Binding, av map[string]bool) {
+	show := func(o *EvalObs) string {
+		if o.Panic != nil {
+			return fmt.Sprintf("panic(%v)", o.Panic)
+		}
+		if o.Err != nil {
+			return "error(" + o.Err.Error() + ")"
+		}
+		return fmt.Sprintf("%T(%v)", o.Val, o.Val)
+	}
+	var dump [2]string
+	var res [2][2]string
+	src := ""
+	for i, on := range []bool{true, false} {
+		r2 := *rc
+		if !on {
+			r2.Events, r2.Debug = false, false
+		}
+		b := r2.Build()
+		b.setKeys(t, r2.Undefined)
+		src = t.Src()
+		e, err, pan := compileSafe(b.Conf, src)
+		if pan != nil || err != nil {
+			dump[i] = fmt.Sprintf("compile: %v %v", err, pan)
+			continue
+		}
+		dump[i] = eval.Dump(e)
+		for j, try := range []bool{false, true} {
+			f := &RecFetcher{Vals: bd.Vals}
+			if try {
+				f.Avail, f.Lazy = av, true
+				if av == nil {
+					f.Avail = map[string]bool{}
+					for n := range bd.Vals {
+						f.Avail[n] = true
+					}
+				}
+			}
+			res[i][j] = show(runExpr(e, b, &r2, f, try))
+		}
+	}
+	c.Extra["events_on_off_pairs"] = asInt(c.Extra["events_on_off_pairs"]) + 1
+	if strings.HasPrefix(dump[0], "compile:") && strings.Contains(dump[0], "event nodes cannot exceed") {
+		return
+	}
+	if dump[0] != dump[1] {
+		c.Direct = append(c.Direct, DirectViolation{What: fmt.Sprintf("the decompiled program changes with the event options: %q vs %q", clip(dump[0], 200), clip(dump[1], 200)), Sig: "events-change-dump", Sample: src})
+	}
+	for j, what := range []string{"Eval", "TryEval"} {
+		if res[0][j] != res[1][j] {
+			c.Direct = append(c.Direct, DirectViolation{What: fmt.Sprintf("%s with events %s, without %s (config %s, binding %s)", what, res[0][j], res[1][j], rc.Describe(), fmt.Sprint(bd.Vals)), Sig: "events-change-result", Sample: src})
+		}
+	}
+}
+
+func asInt(x interface{}) int {
+	if v, ok := x.(int); ok {
+		return v
+	}
+	return 0
 }
 
 // probeAgreement replays the recorded C04 finding against the real code: all variables available,
